@@ -9,8 +9,11 @@ import time
 from . import core, pipe
 from .pipe import S
 
+SEQ_FLAGS = ["DEV_GrantFromRequest", "DEV_LastRecordOverride", "DEV_CCBeforeLookup", "DEV_Release400", "DEV_RefConcat",
+             "DEV_NoGuardOnRelease", "DEV_KeepReleased", "DEV_NilRequestedUnitPanics"]
 with open(os.path.join(core.SPEC, "dev_flags.json")) as _f:
-    DEV = json.load(_f)
+    _all = json.load(_f)
+DEV = {k: _all[k] for k in SEQ_FLAGS}
 
 
 BASE = dict(
